@@ -1,7 +1,7 @@
 (* C19 — Shot results convert to register bitstrings by the documented convention. *)
 From Coq Require Import ZArith List Bool Arith.
 Import ListNotations.
-From HV Require Import lib.PyDict lib.Harness model.Shots spec.ShotsS proofs.ShotsP.
+From HV Require Import lib.PyDict lib.Harness model.Shots spec.ShotsS proofs.ShotsP proofs.ShotsMultiP.
 
 (* replaying the entries in order as writes: for every register, the result is the pointwise reading
    (latest indexed write to j after the last whole-register write, else that write's bit j, else 0;
@@ -25,6 +25,20 @@ Theorem C19_collate_in_entry_order : forall es t,
   dget tag_eqb (collate es) t = match values_of es t with [] => None | vs => Some vs end.
 Proof. exact collate_in_entry_order. Qed.
 
+(* many shots: for every register the list holds the per-shot strings in shot order (shots that do not
+   write the register contribute nothing); strict_names rejects exactly when some shot's register set
+   differs from the first shot's, strict_lengths exactly when two strings of one register differ in
+   length; a non-bit anywhere is rejected whatever the flags *)
+Theorem C19_multi_shot : forall sn sl shots bits, mapM to_register_bits shots = Ok bits ->
+  if (sn && names_differ bits) || (sl && lengths_differ bits)
+  then register_bitstrings sn sl shots = ValueError
+  else exists sd, register_bitstrings sn sl shots = Ok sd /\ NoDup (keys sd) /\
+                  forall r, dget tag_eqb sd r = opt (per_register bits r).
+Proof. exact multi_shot_spec. Qed.
+Theorem C19_multi_shot_rejects_nonbits : forall sn sl shots,
+  mapM to_register_bits shots = ValueError -> register_bitstrings sn sl shots = ValueError.
+Proof. exact multi_shot_rejects_nonbits. Qed.
+
 (* non-vacuity: interleaved whole/indexed writes; later writes override earlier ones *)
 Example C19_example :
   let es := [([97], DPrim (PInt 1)); ([97; 91; 50; 93], DPrim (PBool true)); ([97; 91; 48; 93], DPrim (PInt 0))]%Z in
@@ -36,3 +50,5 @@ Print Assumptions C19_bits_pointwise.
 Print Assumptions C19_bits_length_and_content.
 Print Assumptions C19_nonbit_rejected.
 Print Assumptions C19_collate_in_entry_order.
+Print Assumptions C19_multi_shot.
+Print Assumptions C19_multi_shot_rejects_nonbits.
